@@ -39,6 +39,7 @@ MIN_COUNTERS = {
     "q_executions": {"quick": 25000, "thorough": 300000},
     "text_runs_dict_off": {"quick": 50000, "thorough": 600000},
     "text_runs_dict_on": {"quick": 10000, "thorough": 140000},
+    "compression_on_then_off_histories": {"quick": 6000, "thorough": 60000},
 }
 UNIT_TIMEOUT = 900
 
@@ -149,6 +150,19 @@ def check_string(acc, s):
         acc.bump("unit_stopped_after_max_witnesses")
         raise _Abort()
     ascii_ok = _is_ascii_printable(s)
+    lit = model_literal(s)
+    if not ascii_ok and (sum(map(ord, s)) % 3 == 0):
+        # history: the same text evaluated with dictionary compression ON first (its result is not
+        # determined for non-ASCII strings and is ignored), then OFF, in the same process: the second
+        # evaluation must not depend on the first
+        try:
+            with watchdog(WATCHDOG_S):
+                env.run_text(lit, dict_compress=True)
+            acc.bump("compression_on_then_off_histories")
+        except Watchdog:
+            pass
+        except Exception:  # noqa
+            pass
     # --- via the element q ------------------------------------------------
     try:
         with watchdog(WATCHDOG_S):
@@ -169,7 +183,6 @@ def check_string(acc, s):
             if ascii_ok:
                 _run_text_checked(acc, s, "q", text, True)
     # --- via the hand-escaped literal ---------------------------------------
-    lit = model_literal(s)
     _run_text_checked(acc, s, "lit", lit, False)
     if ascii_ok:
         _run_text_checked(acc, s, "lit", lit, True)
